@@ -59,6 +59,9 @@ def oracle(ctx, rec):
             # known only when explained by the missing start_number of $Time$ requests
             fl = rec['first_last']
             cls = 'number-window' if fl[0] <= nt[0] + rep['start_number'] <= fl[1] else None
+            if cls is None and max(rep['durs']) != min(rep['durs']) and nt[0] + rep['start_number'] < fl[0]:
+                # irregular durations: the timeline starts at the exact oldest segment, the number window at time // nominal duration
+                cls = 'number-window-irregular'
             why = 'first/last number window (number %d, window %r)' % (nt[0], rec['first_last'])
         ctx.violation('advertised timeline entry $Time$=%d (ends %d <= now %d) is refused by the %s' % (t, t + d, now_tc, why),
                       {'rep': rep, 'tm': rec['tm'], 'q': [t, None]}, key=cls)
